@@ -124,6 +124,36 @@ def report(repo, rep, rule, select, why=''):
     return n
 
 
+def _may_be_context(expr, f, depth=0):
+    """the receiver expression can denote a PrettyContext: rooted (through attribute / call chains) in a name that is a context
+    parameter (``ctx``, ``*_ctx``, ``context``) or was assigned from such an expression, or the result of constructing the class"""
+    import ast
+    if isinstance(expr, (ast.ListComp, ast.GeneratorExp, ast.SetComp)):
+        return _may_be_context(expr.elt, f, depth + 1)
+    if isinstance(expr, (ast.List, ast.Tuple)) and expr.elts:
+        return any(_may_be_context(e, f, depth + 1) for e in expr.elts)
+    cur = expr
+    while isinstance(cur, (ast.Attribute, ast.Call, ast.Subscript)):
+        if isinstance(cur, ast.Call):
+            if isinstance(cur.func, ast.Name) and cur.func.id == 'PrettyContext':
+                return True
+            cur = cur.func
+        else:
+            cur = cur.value
+    if not isinstance(cur, ast.Name):
+        return True         # unknown shape: keep the rule
+    name = cur.id
+    if name in ('ctx', 'context', 'self') or name.endswith('ctx') or name.endswith('context'):
+        return True
+    if depth > 3:
+        return True
+    defs = [a.value for a in ast.walk(f.node) if isinstance(a, ast.Assign) and any(isinstance(t, ast.Name) and t.id == name for t in a.targets)]
+    if not defs:
+        # a parameter or loop variable of unknown origin: a context only if it is named like one (handled above)
+        return name in f.params and 'ctx' in name.lower()
+    return any(_may_be_context(d, f, depth + 1) for d in defs if not isinstance(d, (ast.Constant, ast.List, ast.Tuple, ast.Dict)))
+
+
 def construction_sites(repo, rep, rule, why=''):
     """who-may-construct: a context is built from scratch only by the pipeline entry (python_to_sdocs) and by the class itself;
     everybody else derives one from the context it was handed, through the public methods the model above verifies (the private
@@ -165,6 +195,8 @@ def construction_sites(repo, rep, rule, why=''):
                           'contexts are created by the pipeline entry / the class only',
                           '%s%s builds a PrettyContext from scratch through %s(): every setting it does not pass on silently falls back to the '
                           'constructor default for everything printed below' % ((why + ': ') if why else '', f.key, c.func.attr), nontrivial=True)
+            elif isinstance(c.func, ast.Attribute) and c.func.attr in private and not inside_class and not _may_be_context(c.func.value, f):
+                continue        # the receiver is not a context (a namedtuple's _replace, another class's private method)
             elif isinstance(c.func, ast.Attribute) and c.func.attr in private and not inside_class:
                 # a private method of the context class called on something that may be a context
                 n += 1
